@@ -142,6 +142,31 @@ pub struct Variant {
     /// spelled `#[darling(word = false)]`: an explicit opt-out, never the word variant
     pub word_false: bool,
     pub body: VBody,
+    /// options on the only field of a newtype variant
+    pub nt_with: With,
+    pub nt_post: Post,
+}
+
+impl Variant {
+    /// the only field of a newtype variant, carrying the variant's inner options (helper names are
+    /// derived from the variant's own name)
+    pub fn newtype_field(&self) -> Option<Field> {
+        match &self.body {
+            VBody::Newtype(t) => Some(Field {
+                rust: format!("nt_{}", self.rust.trim_start_matches("r#")),
+                ty: t.clone(),
+                multiple: false,
+                rename: None,
+                default: Def::None,
+                skip: false,
+                flatten: false,
+                with: self.nt_with,
+                post: self.nt_post,
+                split_attrs: false,
+            }),
+            _ => None,
+        }
+    }
 }
 
 #[derive(Clone, Debug)]
@@ -654,6 +679,7 @@ impl<'a> Gen<'a> {
                     3 => VBody::Newtype(match self.rng.below(4) {
                         0 => Ty::Opt(Box::new(Ty::Sc(self.scalar()))),
                         1 if depth < self.profile.max_depth => Ty::Recv(self.meta_recv(depth + 1, false)),
+                        2 if depth < self.profile.max_depth && self.rng.coin() => Ty::Recv(self.small_recv(depth + 1)),
                         _ => Ty::Sc(self.scalar()),
                     }),
                     _ => {
@@ -668,7 +694,25 @@ impl<'a> Gen<'a> {
                     word: false,
                     word_false: false,
                     body,
+                    nt_with: With::None,
+                    nt_post: Post::None,
                 };
+                if opts {
+                    if let VBody::Newtype(Ty::Sc(sc)) = &v.body {
+                        if matches!(sc, Sc::I64 | Sc::U8 | Sc::Str) {
+                            match self.rng.below(8) {
+                                0 => v.nt_with = With::Path,
+                                1 => v.nt_with = With::Closure,
+                                _ => {}
+                            }
+                            match self.rng.below(8) {
+                                0 => v.nt_post = Post::Map,
+                                1 => v.nt_post = Post::AndThen,
+                                _ => {}
+                            }
+                        }
+                    }
+                }
                 if opts {
                     if self.rng.chance(1, 6) {
                         v.rename = Some(if self.rng.chance(1, 10) { "r#loop".to_string() } else { format!("vr_{}", self.rng.below(9)) });
